@@ -268,6 +268,11 @@ def op_fork(o: dict) -> dict:
                 # a range of draw numbers no other process of the history uses: the epoch's first draw number is unique
                 # per epoch (sim.py advances it by at least one), parents stay below 2**16
                 ent.d = (((ent.first * 16 + ent.forks % 16) * 4 + k % 4 + 1) << 16) + 1
+                import random as _random
+
+                # CPython reseeds the global PRNG of a forked child from OS entropy (random.py registers an at-fork
+                # hook bound to the real os.urandom): the same thing, from the simulated device
+                _random.seed(int.from_bytes(ent.token_bytes(32), "big"))
                 global FORK_TAG
                 FORK_TAG = f"-w{k}"  # concurrent processes build in their own folders (sharing one is the user's race, not SPSDK's)
                 arts = []
